@@ -9,7 +9,7 @@ Open Scope N_scope.
 Definition self7 (ifs : list intf) (its : list iter) : list verdict :=
   chk_C07 g7_init (d_init ifs) its (model_obs (d_init ifs) its).
 Definition self8 (ifs : list intf) (its : list iter) : list verdict :=
-  chk_C08 (d_init ifs) its (model_obs (d_init ifs) its).
+  chk_C08 [] (d_init ifs) its (model_obs (d_init ifs) its).
 Definition self9 (ifs : list intf) (its : list iter) : list verdict :=
   chk_C09 (d_init ifs) its (model_obs (d_init ifs) its).
 
@@ -24,6 +24,13 @@ Definition timeline (ifs : list intf) (its : list iter) : list (N * bool * bool 
 
 Definition busy (tl : list (N * bool * bool * bool)) : list (N * bool * bool * bool) :=
   filter (fun e => let '(_, p, a, g) := e in p || a || g) tl.
+
+(* all verdicts are the known deviation k, and there is at least one *)
+Definition only_known (k : N) (vs : list verdict) : Prop :=
+  vs <> [] /\ forallb (fun v => match v with VKnown c => c =? k | VFail _ => false end) vs = true.
+
+(* "inst._t._tcp.local." *)
+Definition n_inst : bytes := [105;110;115;116;46;95;116;46;95;116;99;112;46;108;111;99;97;108;46].
 
 (* jitter 145: probes at T = t0 + 145, T + 250, T + 500, announcements at T + 750 and T + 1750 *)
 Lemma w_exact_timeline :
@@ -41,58 +48,51 @@ Lemma w_unregister_accepted :
     (1002500, false, false, true); (1002620, false, false, true) ].
 Proof. repeat split; vm_compute; reflexivity. Qed.
 
-(* all verdicts are the known deviation k, and there is at least one *)
-Definition only_known (k : N) (vs : list verdict) : Prop :=
-  vs <> [] /\ forallb (fun v => match v with VKnown c => c =? k | VFail _ => false end) vs = true.
-
-(* C07 *)
-Lemma w_late_known : only_known 42 (self7 w_late_ifs w_late_its).
-Proof. split; [vm_compute; discriminate|vm_compute; reflexivity]. Qed.
-Lemma w_late_timeline :
-  busy (timeline w_late_ifs w_late_its) = [ (1000145, true, false, false); (1000900, false, true, false) ].
-Proof. vm_compute. reflexivity. Qed.
-Lemma w_join_known : only_known 44 (self7 w_join_ifs w_join_its).
-Proof. split; [vm_compute; discriminate|vm_compute; reflexivity]. Qed.
-
-(* C08 *)
-Lemma w_renamed_known8 : only_known 22 (self8 w_renamed_ifs w_renamed_its).
-Proof. split; [vm_compute; discriminate|vm_compute; reflexivity]. Qed.
-Lemma w_hostrenamed_known8 : only_known 23 (self8 w_hostrenamed_ifs w_hostrenamed_its).
-Proof. split; [vm_compute; discriminate|vm_compute; reflexivity]. Qed.
-Lemma w_longlabel_known8 : only_known 21 (self8 w_longlabel_ifs w_longlabel_its).
-Proof. split; [vm_compute; discriminate|vm_compute; reflexivity]. Qed.
-Lemma w_mixedcase_known8 : only_known 28 (self8 w_mixedcase_ifs w_mixedcase_its).
-Proof. split; [vm_compute; discriminate|vm_compute; reflexivity]. Qed.
-
-(* C09 *)
-Lemma w_renamed_known9 : only_known 11 (self9 w_renamed_ifs w_renamed_its).
-Proof. split; [vm_compute; discriminate|vm_compute; reflexivity]. Qed.
-Lemma w_probing_goodbye_known9 : only_known 12 (self9 w_probing_goodbye_ifs w_probing_goodbye_its).
-Proof. split; [vm_compute; discriminate|vm_compute; reflexivity]. Qed.
-Lemma w_resend_if_known9 : only_known 14 (self9 w_resend_if_ifs w_resend_if_its).
-Proof. split; [vm_compute; discriminate|vm_compute; reflexivity]. Qed.
-
+(* C07: what stays refuted *)
 Lemma w_late_refutes :
   busy (timeline w_late_ifs w_late_its) = [ (1000145, true, false, false); (1000900, false, true, false) ] /\
   only_known 42 (self7 w_late_ifs w_late_its).
-Proof. exact (conj w_late_timeline w_late_known). Qed.
-
-Lemma w_skipreprobe_known : only_known 46 (self7 w_skipreprobe_ifs w_skipreprobe_its).
+Proof. split; [vm_compute; reflexivity|split; [vm_compute; discriminate|vm_compute; reflexivity]]. Qed.
+Lemma w_join_known : only_known 44 (self7 w_join_ifs w_join_its).
 Proof. split; [vm_compute; discriminate|vm_compute; reflexivity]. Qed.
-Lemma w_skipreprobe_timeline :
-  busy (timeline w_skipreprobe_ifs w_skipreprobe_its) =
-  [ (1000222, true, false, false); (1000472, true, false, false); (1000696, true, false, false);
-    (1000722, true, false, false); (1000946, true, false, false); (1001196, true, false, false);
-    (1001471, false, true, false) ].
-Proof. vm_compute. reflexivity. Qed.
 
-(* the instance name (dev-1._t._tcp.local.) is in the question section of the first probe only *)
-Lemma w_skipreprobe_refutes :
-  only_known 46 (self7 w_skipreprobe_ifs w_skipreprobe_its) /\
+(* C07: after a lost tie-break followed by a host rename the instance name is probed again
+   (three more probe queries) before it is announced *)
+Lemma w_skipreprobe_fixed :
+  self7 w_skipreprobe_ifs w_skipreprobe_its = [] /\
   wire_probe_times 2 [100;101;118;45;49;46;95;116;46;95;116;99;112;46;108;111;99;97;108;46]
-                   (d_init w_skipreprobe_ifs) w_skipreprobe_its = [1000222] /\
-  busy (timeline w_skipreprobe_ifs w_skipreprobe_its) =
-  [ (1000222, true, false, false); (1000472, true, false, false); (1000696, true, false, false);
-    (1000722, true, false, false); (1000946, true, false, false); (1001196, true, false, false);
-    (1001471, false, true, false) ].
-Proof. split; [exact w_skipreprobe_known|split; vm_compute; reflexivity]. Qed.
+                   (d_init w_skipreprobe_ifs) w_skipreprobe_its = [1000222; 1000696; 1000946; 1001196].
+Proof. split; vm_compute; reflexivity. Qed.
+
+(* ... but the restart comes before the second the lost tie-break asks for *)
+Lemma w_skipreprobe_known8 : only_known 30 (self8 w_skipreprobe_ifs w_skipreprobe_its).
+Proof. split; [vm_compute; discriminate|vm_compute; reflexivity]. Qed.
+
+(* C07: the interface goes away during probing and comes back: three new probes, then two announcements *)
+Lemma w_toggle_accepted :
+  self7 w_toggle_ifs w_toggle_its = [] /\
+  busy (timeline w_toggle_ifs w_toggle_its) =
+  [ (1000145, true, false, false); (1000395, true, false, false);
+    (1001098, true, false, false); (1001348, true, false, false); (1001598, true, false, false);
+    (1001848, false, true, false); (1002848, false, true, false) ].
+Proof. split; vm_compute; reflexivity. Qed.
+
+(* C08: the former deviations are gone: renamed by a conflict, the goodbye, the direct answers and
+   the lookup use the current names; a 62-byte label no longer kills the daemon thread *)
+Lemma w_former_c08_accepted :
+  self8 w_renamed_ifs w_renamed_its = [] /\ self8 w_hostrenamed_ifs w_hostrenamed_its = [] /\
+  self8 w_longlabel_ifs w_longlabel_its = [] /\ self8 w_mixedcase_ifs w_mixedcase_its = [].
+Proof. repeat split; vm_compute; reflexivity. Qed.
+
+(* C08: a competing probe whose record list extends the daemon's own wins by the length rule: the
+   daemon's next probe for the name comes a second later (probes at +145, then from +1300) *)
+Lemma w_prefix_lost_defers :
+  self8 w_prefix_lost_ifs w_prefix_lost_its = [] /\
+  wire_probe_times 2 n_inst (d_init w_prefix_lost_ifs) w_prefix_lost_its = [1000145; 1001300; 1001550; 1001800].
+Proof. split; vm_compute; reflexivity. Qed.
+
+(* C09: the former deviations are gone *)
+Lemma w_former_c09_accepted :
+  self9 w_renamed_ifs w_renamed_its = [] /\ self9 w_probing_goodbye_ifs w_probing_goodbye_its = [] /\
+  self9 w_resend_if_ifs w_resend_if_its = [].
+Proof. repeat split; vm_compute; reflexivity. Qed.
